@@ -310,6 +310,16 @@ int main(int argc, char** argv) {
   // timeouts: a child that outlives the deadline is ended
   all.push_back({"run_process", P{{"w1", 10}, {"s", 5000}, {"x", 0}}, -1, false, 300000, "none"});
   all.push_back({"run_process", P{{"w1", 10}, {"s", 5000}, {"x", 0}}, -1, true, 300000, "none"});
+  // a chatty child (output more often than the poll timeout, so every poll returns an event) is ended by the deadline too
+  {
+    P chatty;
+    for (int i = 0; i < 40; i++) {
+      chatty.push_back({"w1", 1});
+      chatty.push_back({"s", 150});
+    }
+    chatty.push_back({"x", 0});
+    all.push_back({"run_process", chatty, -1, false, 300000, "none"});
+  }
   // a child that ignores SIGTERM must still be ended (the escalation to SIGKILL comes 5 s later)
   all.push_back({"run_process", P{{"it", 0}, {"w1", 10}, {"s", 30000}, {"x", 0}}, -1, false, 300000, "none"});
   // repeated calls: no descriptor may be left behind however many times it is called
